@@ -542,6 +542,56 @@ def run_trace(job) -> dict:
     return tr
 
 
+def run_monitored(job):
+    """C03 host: job as for run_trace.  The XSD monitor judges the object's part before the LAST action (base) and after it.
+    Returns a SlideOps-format trace: op "prop.set" when the assignment was accepted, "reject.attr" when it was refused with
+    TypeError / ValueError; None when an earlier action failed, the object has no element, or another exception class was raised
+    (C09's RefusalClass judges that)."""
+    from lxml import etree
+    from mbt.monitor import xsd
+    tid, kname, deck, path, acts = job
+    K = RT["kinds"][kname]
+    props = K["props"]
+    prs = open_deck(deck)
+    obj = resolve(prs, path)
+    acts = [a for a in acts if a["op"] != "SaveReopen"]
+
+    def verdict():
+        el = elem_of(obj)
+        if el is None:
+            return None
+        root = el.getroottree().getroot()
+        return [{"role": "/part", "err": xsd.errors(etree.fromstring(etree.tostring(root)))}]
+    out = "ok"
+    base = None
+    for i, a in enumerate(acts):
+        pr = props[a["p"] - 1]
+        try:
+            val = None if a["op"] == "SetNone" else concretise(pr, a["v"])
+        except Unjudgeable:
+            return None
+        last = i == len(acts) - 1
+        if last:
+            base = verdict()
+            if base is None:
+                return None
+        try:
+            set_prop(obj, pr["p"], val)
+        except Exception as e:      # noqa: BLE001
+            if not last:
+                return None
+            out = _outcome(e)
+    if out not in ("ok", "ValueError", "TypeError"):
+        return None
+    if out == "ok" and acts[-1]["op"] == "SetOut":
+        return None          # an ACCEPTED value from outside the documented domain (NaN, inf, ...): C09 / C11 report it; C03 speaks of documented domains
+    after = verdict()
+    if after is None:
+        return None
+    return {"id": tid, "base": base, "steps": [{"op": "prop.set" if out == "ok" else "reject.attr", "out": out, "parts": after}], "final": after,
+            "unexpected": []}
+
+
 # ------------------------------------------------------------------------------------------------ corpus objects
 def _walk_text(sh, p, out):
     out.append(("TextFrame", p + ".text_frame"))
